@@ -459,10 +459,24 @@ func c11Template(r *verifkit.Rand) *stdx509.Certificate {
 		sn.SetInt64(1)
 	}
 	t.SerialNumber = sn
-	years := []int{1951, 1999, 2000, 2024, 2049, 2050, 2051, 2100, 9999}
+	years := []int{1949, 1950, 1950, 1951, 1999, 2000, 2024, 2049, 2049, 2050, 2051, 2100, 9999}
 	y1 := years[r.Intn(len(years))]
 	t.NotBefore = time.Date(y1, time.Month(1+r.Intn(12)), 1+r.Intn(28), r.Intn(24), r.Intn(60), r.Intn(60), 0, time.UTC)
 	t.NotAfter = t.NotBefore.AddDate(r.Intn(60), r.Intn(12), r.Intn(28))
+	// both edges of the UTCTime window (1950-01-01 .. 2049-12-31) and their GeneralizedTime neighbours
+	edges := []time.Time{time.Date(1949, 12, 31, 23, 59, 59, 0, time.UTC), time.Date(1950, 1, 1, 0, 0, 0, 0, time.UTC), time.Date(1950, 6, 15, 12, 30, 45, 0, time.UTC),
+		time.Date(1950, 12, 31, 23, 59, 59, 0, time.UTC), time.Date(1951, 1, 1, 0, 0, 0, 0, time.UTC), time.Date(1999, 12, 31, 23, 59, 59, 0, time.UTC), time.Date(2000, 1, 1, 0, 0, 0, 0, time.UTC),
+		time.Date(2049, 12, 31, 23, 59, 59, 0, time.UTC), time.Date(2050, 1, 1, 0, 0, 0, 0, time.UTC)}
+	switch r.Intn(4) {
+	case 0:
+		t.NotBefore = edges[r.Intn(len(edges))]
+		if !t.NotAfter.After(t.NotBefore) {
+			t.NotAfter = t.NotBefore.AddDate(1, 0, 0)
+		}
+	case 1:
+		i := r.Intn(len(edges))
+		t.NotBefore, t.NotAfter = edges[i], edges[i+r.Intn(len(edges)-i)]
+	}
 	if t.NotAfter.Year() > 9999 {
 		t.NotAfter = time.Date(9999, 12, 31, 23, 59, 59, 0, time.UTC)
 	}
@@ -643,6 +657,44 @@ func c11Sub(whole, sub []byte) (int, bool) {
 	return off, true
 }
 
+// c11Positions: offsets and lengths (in der) of the TBS, issuer, subject and SPKI elements by position; nil if the framing
+// is not plain enough to walk (then only aliasing and wholeness are checked).
+func c11Positions(der []byte) [][2]int {
+	_, hl0, l0, ok := c11ReadHeader(der)
+	if !ok || hl0+l0 != len(der) {
+		return nil
+	}
+	_, hl1, l1, ok := c11ReadHeader(der[hl0:])
+	if !ok {
+		return nil
+	}
+	out := [][2]int{{hl0, hl1 + l1}}
+	off, end := hl0+hl1, hl0+hl1+l1
+	idx := 0
+	if off < end && der[off] == 0xa0 {
+		_, h, l, ok := c11ReadHeader(der[off:end])
+		if !ok {
+			return nil
+		}
+		off += h + l
+	}
+	for off < end && idx < 6 {
+		_, h, l, ok := c11ReadHeader(der[off:end])
+		if !ok {
+			return nil
+		}
+		if idx == 2 || idx == 4 || idx == 5 {
+			out = append(out, [2]int{off, h + l})
+		}
+		off += h + l
+		idx++
+	}
+	if len(out) != 4 {
+		return nil
+	}
+	return out
+}
+
 func c11Envelope(der []byte) (cert *certificate, laxed bool, rest []byte, ok bool) {
 	cert = new(certificate)
 	rest, err := asn1.Unmarshal(der, cert)
@@ -680,7 +732,14 @@ func c11EnvAnswer(tbs *tbsCertificate, raw []byte, laxed bool, rest []byte) stri
 }
 
 func c11InnerClass(cert *certificate) (string, c11Out) {
-	o := c11Call(func() (interface{}, error) { return parseCertificate(cert) })
+	o := c11Call(func() (interface{}, error) {
+		c, err := parseCertificate(cert)
+		switch err.(type) {
+		case *Errors, *NonFatalErrors:
+			panic(fmt.Sprintf("parseCertificate returned an error of type %T (InnerOK: only nil, NonFatalErrors or an ordinary error)", err))
+		}
+		return c, err
+	})
 	switch {
 	case o.panick != "":
 		return "fatal", o
@@ -712,11 +771,22 @@ func TestVerifC11(t *testing.T) {
 		}
 	}
 
+	// ---- IsFatal on every kind of error value the package produces (replayed on the model's isFatal)
+	for _, k := range []struct {
+		n string
+		e error
+	}{{"nil", nil}, {"plain", fmt.Errorf("x")}, {"asn1", asn1.SyntaxError{Msg: "x"}}, {"nfe:0", NonFatalErrors{}}, {"nfe:2", NonFatalErrors{Errors: []error{fmt.Errorf("a"), fmt.Errorf("b")}}},
+		{"nfeptr:1", &NonFatalErrors{Errors: []error{fmt.Errorf("a")}}}, {"errs:-", &Errors{}}, {"errs:0", &Errors{Errs: []Error{{Fatal: false}}}},
+		{"errs:1", &Errors{Errs: []Error{{Fatal: true}}}}, {"errs:001", &Errors{Errs: []Error{{}, {}, {Fatal: true}}}}, {"errs:00", &Errors{Errs: []Error{{}, {}}}}} {
+		out.T("isfatal "+k.n, verifkit.B(IsFatal(k.e)))
+	}
+
 	// ---- one certificate through the certificate entry points
 	var pool [][]byte // inputs that parse (strictly or via lax) as exactly one certificate: pieces for the concatenation law
 	var poolInner []string
 	var poolLax []bool
 	nLaxPool := 0
+	nFatalPool := 0
 	oneTBS := func(tbs []byte, class string) {
 		out.Count("class:tbs-" + class)
 		to := c11Call(func() (interface{}, error) { return ParseTBSCertificate(tbs) })
@@ -760,6 +830,16 @@ func TestVerifC11(t *testing.T) {
 				out.Fail("incoherent parseCertificate "+hx, io.String())
 			}
 		}
+		if ok && len(rest) == 0 && ((laxed && nLaxPool < 200) || (inner == "fatal" && nFatalPool < 60) || (!laxed && inner != "fatal" && r.Intn(3) == 0 && len(pool)-nLaxPool-nFatalPool < 400)) {
+			if laxed {
+				nLaxPool++
+			} else if inner == "fatal" {
+				nFatalPool++
+			}
+			pool = append(pool, der)
+			poolInner = append(poolInner, inner)
+			poolLax = append(poolLax, laxed)
+		}
 		var parsed *Certificate
 		o := c11Call(func() (interface{}, error) {
 			c, err := ParseCertificate(der)
@@ -786,13 +866,20 @@ func TestVerifC11(t *testing.T) {
 			if len(parsed.Raw) != len(der) {
 				out.Fail("raw-slice Raw "+hx, "Raw is not the whole input")
 			}
-			if inner != "fatal" && ok && len(rest) == 0 && ((laxed && nLaxPool < 200) || (!laxed && r.Intn(3) == 0 && len(pool)-nLaxPool < 400)) {
-				if laxed {
-					nLaxPool++
+			// each raw field is the element at *its* position: TBS = first element of the certificate content; inside the TBS,
+			// after an optional [0] version: serial, signature, ISSUER, validity, SUBJECT, SPKI
+			if pos := c11Positions(der); pos != nil {
+				for _, f := range []struct {
+					n    string
+					b    []byte
+					want [2]int
+				}{{"RawTBSCertificate", parsed.RawTBSCertificate, pos[0]}, {"RawIssuer", parsed.RawIssuer, pos[1]}, {"RawSubject", parsed.RawSubject, pos[2]}, {"RawSubjectPublicKeyInfo", parsed.RawSubjectPublicKeyInfo, pos[3]}} {
+					if off, ok := c11Sub(der, f.b); ok && (off != f.want[0] || len(f.b) != f.want[1]) {
+						out.Fail("raw-slice position "+f.n+" "+hx, fmt.Sprintf("is input[%d:%d], the element at its position is input[%d:%d]", off, off+len(f.b), f.want[0], f.want[0]+f.want[1]))
+					}
 				}
-				pool = append(pool, der)
-				poolInner = append(poolInner, inner)
-				poolLax = append(poolLax, laxed)
+			} else {
+				out.Count("mode:raw-position-not-checked")
 			}
 			oneTBS(parsed.RawTBSCertificate, class)
 			if r.Intn(6) == 0 {
@@ -805,10 +892,10 @@ func TestVerifC11(t *testing.T) {
 		}
 		check("ParseCertificates", der, c11Call(func() (interface{}, error) {
 			cs, err := ParseCertificates(der)
-			if err != nil && IsFatal(err) {
+			if cs == nil {
 				return nil, err
 			}
-			return cs, err
+			return cs, err // unmodified: an (object, fatal) pair must show up as incoherent
 		}))
 	}
 
@@ -857,6 +944,33 @@ func TestVerifC11(t *testing.T) {
 		}
 	}
 
+	// ---- certificates without any OPTIONAL part (no extensions, no unique ids; Ed25519: no algorithm parameters) and with
+	//      unique ids, for the ordered pairs of the concatenation law
+	var bare, withUID [][]byte
+	for i := 0; i < 6; i++ {
+		tmpl := &stdx509.Certificate{SerialNumber: big.NewInt(int64(1000 + i)), Subject: stdpkix.Name{CommonName: fmt.Sprintf("bare-%d", i)},
+			NotBefore: time.Date(2020+i, 1, 2, 3, 4, 5, 0, time.UTC), NotAfter: time.Date(2030+i, 1, 2, 3, 4, 5, 0, time.UTC)}
+		var signer interface{} = edSigner
+		if i%2 == 1 && rsaSigner != nil {
+			signer = rsaSigner
+			tmpl.SignatureAlgorithm = stdx509.SHA256WithRSA
+		}
+		der, err := stdx509.CreateCertificate(c11Reader{r}, tmpl, &stdx509.Certificate{Subject: stdpkix.Name{CommonName: "plain issuer"}}, edSigner.Public(), signer)
+		if err != nil {
+			continue
+		}
+		bare = append(bare, der)
+		oneCert(der, "generated-bare")
+		// the same certificate with issuerUniqueID [1] and subjectUniqueID [2] spliced into the TBS (signature no longer valid: irrelevant here)
+		if roots, ok := c11ParseSeq(der, 3); ok && len(roots) == 1 && len(roots[0].kids) == 3 && roots[0].kids[0].kids != nil {
+			tbs := roots[0].kids[0]
+			tbs.kids = append(append([]*c11Node(nil), tbs.kids...), &c11Node{id: []byte{0x81}, content: []byte{0x00, 0xaa, byte(i)}}, &c11Node{id: []byte{0x82}, content: []byte{0x04, 0xf0}})
+			u := roots[0].encode()
+			withUID = append(withUID, u)
+			oneCert(u, "generated-uniqueid")
+		}
+	}
+
 	// ---- (a) testdata + mutations
 	for _, c := range corpus.certs {
 		oneCert(c, "testdata")
@@ -875,16 +989,72 @@ func TestVerifC11(t *testing.T) {
 	// ---- (c) concatenations
 	nCat := verifkit.N(150, 5000)
 	nF7 := 0
-	for i := 0; i < nCat && len(pool) > 0; i++ {
+	// ordered pairs first: (rich, bare), (unique ids, bare), (RSA-signed = with algorithm parameters, Ed25519-signed = without), both orders, and a few triples
+	var ordered [][]int
+	addPool := func(der []byte) int {
+		for i, p := range pool {
+			if bytes.Equal(p, der) {
+				return i
+			}
+		}
+		cert, laxed, rest, ok := c11Envelope(der)
+		if !ok || len(rest) != 0 {
+			return -1
+		}
+		inner, _ := c11InnerClass(cert)
+		pool = append(pool, der)
+		poolInner = append(poolInner, inner)
+		poolLax = append(poolLax, laxed)
+		return len(pool) - 1
+	}
+	var richIdx, bareIdx, uidIdx []int
+	for i, g := range generated {
+		if i < 12 {
+			if x := addPool(g); x >= 0 {
+				richIdx = append(richIdx, x)
+			}
+		}
+	}
+	for _, b := range bare {
+		if x := addPool(b); x >= 0 {
+			bareIdx = append(bareIdx, x)
+		}
+	}
+	for _, u := range withUID {
+		if x := addPool(u); x >= 0 {
+			uidIdx = append(uidIdx, x)
+		}
+	}
+	for _, a := range append(append([]int(nil), richIdx...), uidIdx...) {
+		for j, b := range bareIdx {
+			if j < 3 {
+				ordered = append(ordered, []int{a, b}, []int{b, a}, []int{a, b, a, b})
+			}
+		}
+	}
+	for i := 0; i+1 < len(bareIdx); i++ {
+		ordered = append(ordered, []int{bareIdx[i], bareIdx[i+1]}, []int{bareIdx[i+1], bareIdx[i]})
+	}
+	for i := 0; i < nCat+len(ordered) && len(pool) > 0; i++ {
 		k := 1 + r.Intn(4)
+		var fixedPick []int
+		if i < len(ordered) {
+			fixedPick = ordered[i]
+			k = len(fixedPick)
+		}
 		var cat []byte
 		var desc []string
 		exp := c11Out{obj: true}
 		nfe := 0
 		fatal := false
 		anyLax := ""
+		var picks []int
 		for j := 0; j < k; j++ {
 			x := r.Intn(len(pool))
+			if fixedPick != nil {
+				x = fixedPick[j]
+			}
+			picks = append(picks, x)
 			if poolLax[x] {
 				anyLax = "lax-piece "
 			}
@@ -908,13 +1078,42 @@ func TestVerifC11(t *testing.T) {
 		default:
 			exp.class = "none"
 		}
+		var gotCerts []*Certificate
 		got := c11Call(func() (interface{}, error) {
 			cs, err := ParseCertificates(cat)
+			gotCerts = cs
 			if cs == nil {
 				return nil, err
 			}
 			return cs, err
 		})
+		if got.obj && got.panick == "" {
+			// certificate by certificate: as many results as pieces, in order, each built from its own piece and equal to
+			// what ParseCertificate returns for that piece alone
+			if len(gotCerts) != k {
+				out.Fail(fmt.Sprintf("concat-count k=%d %s", k, verifkit.Hex(cat)), fmt.Sprintf("%d certificates returned for %d pieces", len(gotCerts), k))
+			} else {
+				off := 0
+				for j, x := range picks {
+					alone, _ := ParseCertificate(pool[x])
+					if !bytes.Equal(gotCerts[j].Raw, pool[x]) {
+						out.Fail(fmt.Sprintf("concat-piece %d/%d %s", j, k, verifkit.Hex(cat)), "Raw of the result is not the piece at that position")
+					} else if o2, ok := c11Sub(cat, gotCerts[j].Raw); !ok || o2 != off {
+						out.Fail(fmt.Sprintf("concat-piece %d/%d %s", j, k, verifkit.Hex(cat)), "Raw of the result does not alias the concatenation at the piece's offset")
+					} else if alone == nil || !reflect.DeepEqual(gotCerts[j], alone) {
+						detail := "certificate differs from ParseCertificate on the piece alone"
+						if alone != nil {
+							detail += fmt.Sprintf(": in the concatenation %d extensions, KeyUsage=%d, IsCA=%v, DNSNames=%v, unique-id-bearing TBS=%v; alone %d extensions, KeyUsage=%d, IsCA=%v, DNSNames=%v",
+								len(gotCerts[j].Extensions), gotCerts[j].KeyUsage, gotCerts[j].IsCA, gotCerts[j].DNSNames, len(gotCerts[j].RawTBSCertificate) != len(alone.RawTBSCertificate),
+								len(alone.Extensions), alone.KeyUsage, alone.IsCA, alone.DNSNames)
+						}
+						out.Fail(fmt.Sprintf("concat-piece %d/%d %s", j, k, verifkit.Hex(cat)), detail)
+					}
+					off += len(pool[x])
+				}
+				out.Count("mode:concat-per-certificate-equal")
+			}
+		}
 		out.T(fmt.Sprintf("pcs %d %s", k, strings.Join(desc, " ")), got.String())
 		out.Count("class:concatenation")
 		if got.String() != exp.String() && anyLax != "" && nF7 >= 8 {
@@ -1052,7 +1251,20 @@ func c11Strs(a, b []string) bool {
 func c11Name2(a pkix.Name, b stdpkix.Name) bool {
 	return c11Strs(a.Country, b.Country) && c11Strs(a.Organization, b.Organization) && c11Strs(a.OrganizationalUnit, b.OrganizationalUnit) &&
 		c11Strs(a.Locality, b.Locality) && c11Strs(a.Province, b.Province) && c11Strs(a.StreetAddress, b.StreetAddress) &&
-		c11Strs(a.PostalCode, b.PostalCode) && a.SerialNumber == b.SerialNumber && a.CommonName == b.CommonName && len(a.Names) == len(b.Names)
+		c11Strs(a.PostalCode, b.PostalCode) && a.SerialNumber == b.SerialNumber && a.CommonName == b.CommonName && c11ATVs(a.Names, b.Names)
+}
+
+// every attribute, in order: same type, same decoded value
+func c11ATVs(a []pkix.AttributeTypeAndValue, b []stdpkix.AttributeTypeAndValue) bool {
+	if len(a) != len(b) {
+		return false
+	}
+	for i := range a {
+		if !reflect.DeepEqual([]int(a[i].Type), []int(b[i].Type)) || fmt.Sprint(a[i].Value) != fmt.Sprint(b[i].Value) {
+			return false
+		}
+	}
+	return true
 }
 
 func c11OIDs(a []asn1.ObjectIdentifier, b []asn1Std) bool {
@@ -1107,7 +1319,6 @@ func c11Compare(f *Certificate, s *stdx509.Certificate) string {
 	sort.Strings(ft)
 	sort.Strings(st)
 	ekus := reflect.DeepEqual(ft, st)
-	unk := true
 	pol := len(f.PolicyIdentifiers) == len(s.PolicyIdentifiers)
 	if pol {
 		for i := range f.PolicyIdentifiers {
@@ -1147,7 +1358,7 @@ func c11Compare(f *Certificate, s *stdx509.Certificate) string {
 		{"Version", f.Version == s.Version}, {"SerialNumber", f.SerialNumber.Cmp(s.SerialNumber) == 0},
 		{"Issuer", c11Name2(f.Issuer, s.Issuer)}, {"Subject", c11Name2(f.Subject, s.Subject)},
 		{"NotBefore", f.NotBefore.Equal(s.NotBefore)}, {"NotAfter", f.NotAfter.Equal(s.NotAfter)},
-		{"KeyUsage", int(f.KeyUsage) == int(s.KeyUsage)}, {"ExtKeyUsage", ekus}, {"UnknownExtKeyUsage", unk},
+		{"KeyUsage", int(f.KeyUsage) == int(s.KeyUsage)}, {"ExtKeyUsage+UnknownExtKeyUsage (multiset of usages)", ekus},
 		{"BasicConstraintsValid", f.BasicConstraintsValid == s.BasicConstraintsValid}, {"IsCA", f.IsCA == s.IsCA},
 		{"MaxPathLen", f.MaxPathLen == s.MaxPathLen}, {"MaxPathLenZero", f.MaxPathLenZero == s.MaxPathLenZero},
 		{"SubjectKeyId", bytes.Equal(f.SubjectKeyId, s.SubjectKeyId)}, {"AuthorityKeyId", bytes.Equal(f.AuthorityKeyId, s.AuthorityKeyId)},
@@ -1160,6 +1371,9 @@ func c11Compare(f *Certificate, s *stdx509.Certificate) string {
 		{"PermittedURIDomains", c11Strs(f.PermittedURIDomains, s.PermittedURIDomains)}, {"ExcludedURIDomains", c11Strs(f.ExcludedURIDomains, s.ExcludedURIDomains)},
 		{"CRLDistributionPoints", c11Strs(f.CRLDistributionPoints, s.CRLDistributionPoints)}, {"PolicyIdentifiers", pol},
 		{"Extensions", exts}, {"UnhandledCriticalExtensions", unh},
+		// fields only the fork has: nothing in a generated template feeds them
+		{"fork-only fields empty (SIA, RPKI, SCT list)", len(f.SubjectTimestamps) == 0 && len(f.SubjectCARepositories) == 0 && len(f.RPKIAddressRanges) == 0 &&
+			f.RPKIASNumbers == nil && f.RPKIRoutingDomainIDs == nil && len(f.RawSCT) == 0 && len(f.SCTList.SCTList) == 0},
 	} {
 		if !c.ok {
 			return c.n
